@@ -288,7 +288,7 @@ func runGrammar(c *mc.Ctx, r *mc.Result) {
 // runBytes: crash-freedom and reference agreement on arbitrary bytes.
 func runBytes(c *mc.Ctx, r *mc.Result) {
 	seeds := []string{"/a/{b}/c", "/*{w}/x", "a.b/c", "{h}.b/{x}", "/a*{w}", "a-1.b/", "/{x}/*{y}/z", "/a/b", "ab.{c}.d/e/*{f}", "/{ab}/c{d}"}
-	r.Bounds["bytes"] = fmt.Sprintf("every 1- and 2-byte string over all 256 byte values (prefixed with nothing and with '/'), and every single-byte substitution (256 values) at every position of %d seed patterns", len(seeds))
+	r.Bounds["bytes"] = fmt.Sprintf("every 1- and 2-byte string over all 256 byte values (prefixed with nothing and with '/'), and every single-byte substitution (256 values) at every position of %d seed patterns; hostname labels of 61..66 bytes and hostnames of 250..260 bytes in 7 arrangements of letters, digits, hyphens and underscores", len(seeds))
 	f := router(limits{-1, -1})
 	try := func(s string) {
 		r.Evaluations++
@@ -315,6 +315,53 @@ func runBytes(c *mc.Ctx, r *mc.Result) {
 		for b := 0; b < 256; b++ {
 			try(string([]byte{byte(a), byte(b)}))
 			try("/" + string([]byte{byte(a), byte(b)}))
+		}
+	}
+	// length limits of hostnames: labels of 61..66 bytes and hostnames of 250..260 bytes, built from
+	// letters, digits, hyphens and underscores in several arrangements (the limits count every byte)
+	label := func(n int, style int) string {
+		b := []byte(strings.Repeat("a", n))
+		switch style {
+		case 1: // one hyphen near the start
+			b[1] = '-'
+		case 2: // one hyphen in the middle
+			b[n/2] = '-'
+		case 3: // one hyphen near the end
+			b[n-2] = '-'
+		case 4: // every other byte a hyphen
+			for i := 1; i < n-1; i += 2 {
+				b[i] = '-'
+			}
+		case 5: // digits and one letter
+			for i := 1; i < n; i++ {
+				b[i] = '1'
+			}
+		case 6: // underscores inside
+			for i := 1; i < n-1; i += 3 {
+				b[i] = '_'
+			}
+		}
+		return string(b)
+	}
+	if c.Mine(0) {
+		for style := 0; style <= 6; style++ {
+			for n := 61; n <= 66; n++ {
+				l := label(n, style)
+				for _, host := range []string{l, "b." + l, l + ".b", l + "." + l} {
+					try(host + "/")
+					try(host + "/{x}")
+					r.DistinctNontrivial++
+				}
+			}
+			for total := 250; total <= 260; total++ {
+				var labels []string
+				for i := 0; i < 6; i++ {
+					labels = append(labels, label(40, style))
+				}
+				labels = append(labels, label(total-246, style%4)) // 4..14 bytes
+				try(strings.Join(labels, ".") + "/")
+				r.DistinctNontrivial++
+			}
 		}
 	}
 	for _, sd := range seeds {
